@@ -159,6 +159,14 @@ CLAIMED["C20"] = dict(
     note=TRUST + " The proof technique does not reach the query layer (it is glue over the typer's side tables); the claimed level is exploration.",
 )
 
+CLAIMED["C02"] = dict(
+    category="translation_validation",
+    technique="per-program validation with a Coq-defined checker for the emitted Go subset (go_wf: derives types from declarations as Go does and reports undeclared/duplicate names, ill-typed calls, assignments, returns, literals and operators, unused locals and imports) evaluated in coqc on the real Go AST, plus an independent Go lexer (automatic semicolon insertion) and parser that must map the emitted text back to that AST",
+    text="Every accepted program from all generators of this suite, the corpus and multi-package projects: the Go text must parse (Go lexical rules, semicolon insertion, operator precedence, literal escapes) to exactly the AST the backend built, and go_wf of that AST must be empty. Pinned theorem: an accepted file declares each top-level name once (no axioms); examples show each finding class is reported. go_wf is a model of the Go front end, validated on the corpus recorded from real Go (058's compile error is reproduced and is a known finding).",
+    design_ref="DESIGN.md §4 C02",
+    note=TRUST + " lib/goparse.py (Python) is the text-to-tree tie and is trusted to follow the Go specification for the emitted subset; go_wf does not cover Go rules outside that subset.",
+)
+
 NOT_YET = {}
 
 def main():
